@@ -1,6 +1,7 @@
 import Proofs.Compl
 import Model.Shortlex
 import Model.Table
+import Proofs.Mirror
 
 /-! # C06 — complements, dual and the vee (regressive) product
 
@@ -26,6 +27,15 @@ def slCompOK (n : Nat) : Bool :=
   let o := shortlexOrder n
   (List.range (2^n)).all fun i => o.getD (2^n-1-i) 0 == ((2^n-1) ^^^ o.getD i 0)
 theorem shortlexOrder_mirror_upto8 : (List.range 9).all slCompOK = true := by decide +kernel
+
+/-- **the executable default blade order (`Model.shortlexOrder`, compared with `_ShortLexBasisBladeOrder` on every run) has the
+    complementary blade at the mirrored position, for every n**: reversing it and complementing every bitmap gives it back … -/
+theorem shortlexOrder_mirror_all (n : Nat) : (shortlexOrder n).reverse.map ((2 ^ n - 1) ^^^ ·) = shortlexOrder n :=
+  Mirror.shortlexOrder_mirror n
+/-- … index form, as `_gen_complement_func` uses it (`omt[n, -1, dims-1-n]`, `Xval[dims-1-i]`) -/
+theorem shortlexOrder_mirror_index (n i : Nat) (hi : i < (shortlexOrder n).length) :
+    (shortlexOrder n)[i] = (2 ^ n - 1) ^^^ (shortlexOrder n)[(shortlexOrder n).length - 1 - i]'(by omega) :=
+  Mirror.shortlexOrder_mirror_index n i hi
 
 /-- `b ∧ rc(b) = I` for every basis blade, in every metric -/
 theorem blade_wedge_rc (b : Bm n) : wedge n (blade n b : CMV n R) (rcomp n (blade n b)) = blade n (full n) :=
